@@ -130,10 +130,9 @@ def field_contracts():
                 elif exp[0] == 'rounded':
                     ok = out[0] == 'return' and isinstance(out[1], SV) and out[1].kind == 'real'
                     if ok:
-                        r = out[1].t
-                        scale = z3.RealVal(10 ** places)
-                        goal = z3.And(z3.IsInt(r * scale), r - ret.t <= 1 / (2 * scale), ret.t - r <= 1 / (2 * scale))
-                        ok = smt.prove(hyp, goal)[0] == 'discharged'
+                        # the result must be round(v, places): `round` is the A-REAL model (a nearest `places`-decimal) applied to exactly the definition's result
+                        want = z3.Function(f'round_{places}', z3.RealSort(), z3.RealSort())(ret.t)
+                        ok = out[1].t.sexpr() == want.sexpr()
                     if not ok:
                         problems.append(('refuted', f'expected the value rounded to {places} places, got {out}', p))
                 else:
